@@ -7,8 +7,10 @@ import (
 	"encoding/json"
 	"fmt"
 	"net"
+	"net/http"
 	"net/url"
 	"strings"
+	"time"
 
 	"github.com/vipnode/vipnode/v2/ethnode"
 	"github.com/vipnode/vipnode/v2/internal/verif/vh"
@@ -416,6 +418,146 @@ func c19Sequences() vh.Unit {
 	}}
 }
 
+// the real binary: a host that registers without an override is advertised under the address its
+// connection came from (here: loopback), whatever it says about itself in request headers
+func c19BinaryHeaders() vh.Unit {
+	return vh.Unit{Name: "wire/binary-advertised-address", Run: func(u *vh.U) {
+		p, err := vh.StartPool()
+		if err != nil {
+			u.R.Infra = err.Error()
+			return
+		}
+		defer p.Stop()
+		ids := vh.Identities()
+		client := ids[0]
+		cws, err := p.DialWS()
+		if err != nil {
+			u.Violate("wire/websocket-dial-failed", err.Error(), nil)
+			return
+		}
+		defer cws.Close()
+		if r, err := cws.Call(vh.RequestText(vh.NewCall("vipnode_connect", client, vh.WireNonce(), vh.DefaultParam("vipnode_connect", "")), 1), 2*time.Minute); err != nil || strings.Contains(r, `"error"`) {
+			u.Violate("wire/client-connect-failed", fmt.Sprintf("%s %v", r, err), nil)
+			return
+		}
+		claimed := "198.51.100.66"
+		headers := []http.Header{
+			nil,
+			{"X-Forwarded-For": {claimed}},
+			{"X-Forwarded-For": {claimed, "203.0.113.50"}},
+			{"X-Forwarded-For": {claimed + ", 203.0.113.50"}},
+			{"X-Real-Ip": {claimed}},
+			{"Forwarded": {"for=" + claimed}},
+			{"X-Forwarded-Host": {claimed}, "X-Client-Ip": {claimed}},
+		}
+		for hi, h := range headers {
+			host := ids[1+hi%3]
+			ws, err := p.DialWSHeader(h)
+			if err != nil {
+				u.Violate("wire/websocket-dial-failed", fmt.Sprintf("headers %v: %v", h, err), nil)
+				return
+			}
+			hc := vh.NewHostConn(ws)
+			body, err := hc.Call(vh.RequestText(vh.NewCall("vipnode_connect", host, vh.WireNonce(), pool2ConnectHost()), 3), 2*time.Minute)
+			if r, derr := vh.DecodeReply(body); err != nil || derr != nil || r.Code() != 0 {
+				ws.Close()
+				u.Violate("wire/host-connect-failed", fmt.Sprintf("headers %v: %v %s", h, err, firstN(body, 200)), nil)
+				return
+			}
+			body, err = cws.Call(vh.RequestText(vh.NewCall("vipnode_peer", client, vh.WireNonce(), pool.PeerRequest{Num: 5}), 4), 2*time.Minute)
+			ws.Close()
+			wireStep(u)
+			var resp struct {
+				Result struct {
+					Peers []struct {
+						ID  string `json:"id"`
+						URI string `json:"uri"`
+					} `json:"peers"`
+				} `json:"result"`
+			}
+			json.Unmarshal([]byte(body), &resp)
+			uri := ""
+			for _, pr := range resp.Result.Peers {
+				if strings.Contains(pr.URI, host.NodeID) {
+					uri = pr.URI
+				}
+			}
+			u.Observe(fmt.Sprintf("headers#%d -> loopback=%v", hi, strings.Contains(uri, "@127.0.0.1:")))
+			parsed, perr := ethnode.ParseNodeURI(uri)
+			if err != nil || uri == "" || perr != nil {
+				u.Violate("wire/registered-host-not-handed-out", fmt.Sprintf("headers %v: peer request answered %s (%v)", h, firstN(body, 300), err), nil)
+				return
+			}
+			hh, pp, _ := net.SplitHostPort((*url.URL)(parsed).Host)
+			if parsed.ID() != host.NodeID || hh != "127.0.0.1" || pp != "30303" {
+				u.Violate("wire/advertised-address-not-the-connection's", fmt.Sprintf("a host connected from 127.0.0.1 with handshake headers %v and no override is handed to clients as %s", h, strings.Replace(uri, host.NodeID, "<id>", 1)), nil)
+				return
+			}
+			// wait until the pool has noticed the hang-up, so that the next host is the only one registered
+			for i := 0; i < 300; i++ {
+				b, _ := cws.Call(vh.RequestText(vh.NewCall("vipnode_peer", client, vh.WireNonce(), pool.PeerRequest{Num: 5}), 5), 2*time.Minute)
+				if !strings.Contains(b, host.NodeID) {
+					break
+				}
+				time.Sleep(100 * time.Millisecond)
+			}
+		}
+		u.Sample("real binary, hosts registering from loopback with 7 sets of forwarding headers")
+	}}
+}
+
+// an in-process pipe (jsonrpc2.ServePipe, as the agent's :memory: pool uses) has no network address:
+// a host that supplies none either is refused, one that supplies a full one is stored under it
+func c19PipeTransport() vh.Unit {
+	return vh.Unit{Name: "pipe-transport", Run: func(u *vh.U) {
+		ids := vh.Identities()
+		host := ids[1]
+		for _, o := range []struct {
+			override string
+			accept   bool
+		}{{"", false}, {host.NodeID, false}, {"enode://" + host.NodeID, false}, {"enode://" + host.NodeID + "@[::]:30303", false}, {"enode://" + host.NodeID + "@:30303", false},
+			{"enode://" + host.NodeID + "@192.0.2.10:30303", true}, {"enode://" + host.NodeID + "@node.example.org:30303", true}} {
+			for _, endpoint := range []string{"vipnode_connect", "vipnode_host"} {
+				vsched.ResetClock(0)
+				pw := vh.NewPoolWorld(vh.PoolConfig{Driver: vh.Memory, NoManager: true})
+				poolSide, hostSide := jsonrpc2.ServePipe()
+				if err := poolSide.Server.Register("vipnode_", pw.Pool, "connect", "disconnect", "ping", "update", "peer", "client", "host"); err != nil {
+					panic(err)
+				}
+				var param interface{} = pool.HostRequest{Kind: "geth", NodeURI: o.override}
+				if endpoint == "vipnode_connect" {
+					param = pool.ConnectRequest{NodeInfo: ethnode.UserAgent{Kind: ethnode.Geth, IsFullNode: true}, NodeURI: o.override}
+				}
+				c := vh.NewCall(endpoint, host, vsched.Now().UnixNano()+10, param)
+				var raw json.RawMessage
+				_, err := vh.Watched(endpoint+" over a pipe", func() (struct{}, error) {
+					return struct{}{}, hostSide.Call(context.Background(), &raw, c.Endpoint, c.Sig, c.ID, c.Nonce, c.Param)
+				})
+				node, gerr := pw.Raw.GetNode(store.NodeID(host.NodeID))
+				u.R.Evaluations++
+				u.R.States++
+				u.R.Transitions++
+				u.R.Traces++
+				u.Observe(fmt.Sprintf("pipe %s %q accepted=%v", endpoint, o.override != "", err == nil))
+				desc := fmt.Sprintf("%s over an in-process pipe, override %q", endpoint, strings.Replace(o.override, host.NodeID, "<id>", 1))
+				switch {
+				case (err == nil) != (gerr == nil):
+					u.Violate("uri/refused-registration-left-trace", fmt.Sprintf("%s: err=%v stored=%v", desc, err, gerr == nil), nil)
+				case err == nil && !o.accept:
+					u.Violate("uri/undeterminable-address-stored", fmt.Sprintf("%s: accepted; stored %q", desc, strings.Replace(node.URI, host.NodeID, "<id>", 1)), nil)
+				case err != nil && o.accept:
+					u.Violate("uri/valid-registration-refused", fmt.Sprintf("%s: %v", desc, err), nil)
+				case err == nil && !strings.HasSuffix(o.override, node.URI[strings.Index(node.URI, "@"):]):
+					u.Violate("uri/stored-address-not-dialable", fmt.Sprintf("%s: stored %q", desc, node.URI), nil)
+				}
+				hostSide.Codec.Close()
+				poolSide.Codec.Close()
+			}
+		}
+		u.Sample("7 overrides x 2 endpoints over jsonrpc2.ServePipe")
+	}}
+}
+
 func init() {
 	vh.Register(&vh.Check{
 		ID: "C19", Level: "model_checking",
@@ -433,7 +575,7 @@ func init() {
 			if tier == "thorough" {
 				b = 3
 			}
-			us = append(us, c19ConcurrentHosts(2, b), c19MoveWhileAsked(b), c19Sequences())
+			us = append(us, c19ConcurrentHosts(2, b), c19MoveWhileAsked(b), c19Sequences(), c19PipeTransport(), c19BinaryHeaders())
 			if tier == "thorough" {
 				us = append(us, c19ConcurrentHosts(3, 2))
 			}
